@@ -1366,10 +1366,14 @@ fn main() {
         run_small(&cx, &a3, "ß".as_bytes(), 2, 3, 4, true, &nfbs, threads, Some((seed, 2)));
         let a5 = vec![b(b"a"), b(b"b"), b(b"c")];
         run_small(&cx, &a5, b"d", 3, 3, 5, true, &nfbs, threads, Some((seed, 6)));
-        run_wide(&cx, seed, 640, threads);
+        run_small(&cx, &a4, b"c", 4, 3, 7, true, &nfbs, threads, Some((seed + 1, 4)));
+        run_small(&cx, &a5, b"d", 3, 3, 5, true, &nfbs, threads, Some((seed + 1, 6)));
+        run_wide(&cx, seed, 2000, threads);
         run_bytes_family(&cx, threads, true);
         run_fanout_family(&cx, seed, threads, true);
-        run_overlap_family(&cx, seed, 600000, threads);
+        run_fanout_family(&cx, seed + 1, threads, true);
+        run_overlap_family(&cx, seed, 1500000, threads);
+        run_overlap_family(&cx, seed + 1, 500000, threads);
         run_boundary_chars(&cx);
     } else {
         run_small(&cx, &a1, &[0x02], 3, 3, 6, false, &nfbs, threads, Some((seed, 3)));
